@@ -77,6 +77,9 @@ class C16(Prop):
         for _ in range(50 if tier == 'quick' else 600):
             c = sl.gen_session(rng, tier, alpha_kinds=('topn', 'smatrend'), allow_dynamic=True, all_quoted=True)
             c['_worker'] = 'sessworker'
+            if rng.random() < 0.5:
+                c['cfg']['extra_signal'] = True      # the collection also holds a signal over a different universe
+                c['stream'] += ':mixed-universes'
             c['session'] = True
             out.append(c)
         return out
